@@ -247,7 +247,7 @@ def structured(ctx, util, rng, n, reps):
         if out is None:
             continue
         f = ca.Function("p", [W, F, Q], [ca.densify(out)])
-        errs, inputs = [], []
+        errs, tris, inputs = [], [], []
         for _ in range(max(3, reps // 4)):
             Wn = rand_lower(rng, n, cond_max=1e3) * mw
             Wn[np.diag_indices(n)] = np.where(np.diag(Wn) == 0, 1.0, np.diag(Wn))
@@ -262,8 +262,10 @@ def structured(ctx, util, rng, n, reps):
             lhs = Wd @ Wn.T + Wn @ Wd.T
             sc = max(1e-300, np.abs(rhs).max(), np.abs(Wd).max() * np.abs(Wn).max())
             errs.append(np.abs(lhs - rhs).max() / (sc * max(1.0, np.linalg.cond(Wn) * 1e-3)) if np.isfinite(Wd).all() else np.inf)
+            tris.append(np.abs(np.triu(Wd, 1)).max() / (max(1e-300, np.abs(Wd).max()) * max(1.0, np.linalg.cond(Wn) * 1e-3)) if np.isfinite(Wd).all() else np.inf)
             inputs.append(np.concatenate([Wn.ravel(), Fn.ravel(), Qn.ravel()]))
         ctx.check_array("predict_lyapunov_identity_call_sequence", site + "," + sn, errs, 1e-9, {"W_F_Q": np.array(inputs), "position_in_sequence": np.full(len(errs), step)})
+        ctx.check_array("predict_lower_triangular_call_sequence", site + "," + sn, tris, 1e-9, {"W_F_Q": np.array(inputs), "position_in_sequence": np.full(len(errs), step)})
     m = min(2, n)
     seq = [("selection", np.eye(m, n, dtype=bool), np.eye(m, dtype=bool), np.eye(n, dtype=bool)), ("dense", np.ones((m, n), bool), np.tril(np.ones((m, m), bool)), lowm)]
     for step, (sn, mh, mr, mw) in enumerate(seq + seq[::-1]):
